@@ -1017,9 +1017,10 @@ func (f *Facts) summaryOf(g *ssa.Function, depth int) *calleeSummary {
 		rv := f.retValOf(&ap, res.Len()-1)
 		switch {
 		case isErr:
-			if isNilConst(rv) {
+			isNil, nonNil := f.errNilness(&ap, rv)
+			if isNilConst(rv) || isNil {
 				succ = append(succ, ap.Atoms)
-			} else if isFreshErrorV(rv) {
+			} else if isFreshErrorV(rv) || nonNil {
 				fail = append(fail, ap.Atoms)
 			} else {
 				// unknown nil-ness: counts for both (weakens both summaries)
